@@ -9,13 +9,13 @@ Import ListNotations.
     set of every file the analysis holds is the diagnosis of its current text, and a removed file ends
     with an empty (or no) published set. *)
 Theorem published_converge : forall (ds : Type) (diag : text -> ds) (empty : ds) (s0 s : st ds),
-  start ds diag empty s0 -> reach ds diag empty s0 s -> quiescent ds s ->
+  start ds diag empty s0 -> reach ds diag empty true s0 s -> quiescent ds s ->
   forall u, good ds diag empty s u.
 Proof. exact Proofs.published_converge. Qed.
 
 (** The invariant behind it: stale => the running handler or an uncancelled task of that file is pending. *)
 Theorem stale_has_pending_task : forall (ds : Type) (diag : text -> ds) (empty : ds) (s0 s : st ds),
-  start ds diag empty s0 -> reach ds diag empty s0 s ->
+  start ds diag empty s0 -> reach ds diag empty true s0 s ->
   forall u, stale_ok ds diag empty s u.
 Proof. intros ds diag empty s0 s H0 Hr. exact (proj2 (proj2 (Proofs.inv_reach ds diag empty s0 s H0 Hr))). Qed.
 
@@ -23,10 +23,18 @@ Proof. intros ds diag empty s0 s H0 Hr. exact (proj2 (proj2 (Proofs.inv_reach ds
     edit would not cancel that task) -- which [published_converge] shows to be harmless for convergence. *)
 Theorem token_removal_race_reachable :
   start nat (fun t => t) 0 race_start /\
-  exists s, reach nat (fun t => t) 0 race_start s /\ tokens s 0 = None /\
+  exists s, reach nat (fun t => t) 0 true race_start s /\ tokens s 0 = None /\
             exists k, In k (tasks s) /\ tk_uri k = 0 /\ tk_cancelled k = false /\ tk_fired k = false.
 Proof. exact Proofs.token_removal_race_reachable. Qed.
 
+(** The theorems above are about [clear_last = true]: the empty publish for a removed file comes after the
+    removal.  If it came before it, a diagnosis of that file still in flight publishes after the clear and
+    the removed file ends with a non-empty published set. *)
+Theorem clear_first_refuted :
+  start nat (fun t => t) 0 clear_first_start /\
+  exists s, reach nat (fun t => t) 0 false clear_first_start s /\ quiescent nat s /\ an s 0 = None /\ pub s 0 = Some 1.
+Proof. exact Proofs.clear_first_refuted. Qed.
+
 Example converge_example :
-  exists s, reach nat (fun t => t) 0 race_start s /\ quiescent nat s /\ an s 0 = Some 2 /\ pub s 0 = Some 2.
+  exists s, reach nat (fun t => t) 0 true race_start s /\ quiescent nat s /\ an s 0 = Some 2 /\ pub s 0 = Some 2.
 Proof. exact Proofs.converge_example. Qed.
